@@ -1,3 +1,6 @@
 import Model.Scalar
 import Model.Tensor
 import Model.Random
+import Model.Activation
+import Model.Objective
+import Model.Optimizer
